@@ -279,7 +279,10 @@ def refuse(ctx, L, rule="R-REFUSE"):
             or L.is_send(f, x) or L.is_wake(f, x))]
         if e.value == ("c", False):
             n += 1
-            inst = "%s refusal path (line-independent: %s)" % (L.tag, "pool empty" if L.fd else "pair busy")
+            pool = ""
+            if L.fd:
+                pool = " bam" if any(x[0] == "call" and mname(x) == "__get_bam_session" for g, p in lits(r.guards()) for x in walk(g)) else " rts/cts"
+            inst = "%s refusal path (%s%s)" % (L.tag, "pool empty" if L.fd else "pair busy", pool)
             if L.fd:
                 # guard: session number returned by a pool getter is None
                 ok = any(p and g[0] == "cmp" and g[1] == "==" and ("c", None) in (g[2], g[3]) and any(
